@@ -750,8 +750,9 @@ def judge_stored(case, impl, spec):
         out.append(("tie:stored-rows:earlier-runs-changed", f"rows of earlier runs before the scan {impl['stored_before']}, "
                                                             f"afterwards {impl['stored_others']}", False))
     if model_rows := spec.get("model_stored"):
-        if (model_rows["mine"] != impl["stored"] or model_rows["others"] != len(impl["stored_others"])
-                or model_rows["run"] != impl["run_id"]):
+        # (the run ids themselves are not compared: the model's `nextRun` looks at the session_transition rows only, sqlite's
+        # scan_run key also counts runs that stored nothing; both are fresh, which is all the theorem needs)
+        if model_rows["mine"] != impl["stored"] or model_rows["others"] != len(impl["stored_others"]):
             out.append(("tie:stored-rows:model", f"database model: run {model_rows['run']}, rows of the run {model_rows['mine']}, {model_rows['others']} rows "
                                                  f"of other runs; sqlite file: run {impl['run_id']}, {impl['stored']}, {len(impl['stored_others'])}", False))
     return out
